@@ -147,6 +147,10 @@ class _Subst(ast.NodeTransformer):
     def visit_Lambda(self, node):
         return node
 
+    def visit_NamedExpr(self, node):
+        # ``(x := e)`` has the value of e (the binding itself is made by SymClient._eval)
+        return self.visit(node.value)
+
     def visit_Call(self, node):
         # a constructor call of a package class denotes the object created there
         tok = None
@@ -269,6 +273,21 @@ class _Simplify(ast.NodeTransformer):
                     if k.value == sl.value and type(k.value) is type(sl.value):
                         return val
         return node
+
+
+def _balanced(t: str) -> bool:
+    """is ``t`` one parenthesised-balanced expression text with no top-level comma (so ``bool(t)`` was a one-argument call)?"""
+    d = 0
+    for ch in t:
+        if ch in '([{':
+            d += 1
+        elif ch in ')]}':
+            d -= 1
+            if d < 0:
+                return False
+        elif ch == ',' and d == 0:
+            return False
+    return d == 0 and bool(t)
 
 
 class SymClient(Client):
@@ -647,6 +666,15 @@ class SymClient(Client):
             for st in states:
                 nxt.extend(self._call(call, st))
             states = nxt
+        # assignment expressions bind their target once the value is evaluated
+        walrus = [n for n in ast.walk(e) if isinstance(n, ast.NamedExpr) and isinstance(n.target, ast.Name)] if not isinstance(e, ast.stmt) or True else []
+        if walrus:
+            nxt = []
+            for st in states:
+                for w in walrus:
+                    st = st.set(w.target.id, self.value_term(w.value, st))
+                nxt.append(st)
+            states = nxt
         ys = _yields_in(e)
         if ys:
             nxt = []
@@ -882,9 +910,53 @@ class SymClient(Client):
                 outs_f.append(s1)
                 continue
             txt = v if inlined else self.term(test, s1)
-            outs_t.append(s1.add_cond('+' + txt))
-            outs_f.append(s1.add_cond('-' + txt))
+            tt, ff = self._split_truth(txt, s1)
+            outs_t.extend(tt)
+            outs_f.extend(ff)
         return outs_t, outs_f
+
+    def _split_truth(self, txt: str, s: SymState):
+        """the truth of an already evaluated value, as path conditions over its atoms: a boolean that reached the test
+        through a local (``ok = a and not b`` ... ``if ok:``) constrains the path exactly like the test ``a and not b``"""
+        while txt.startswith('bool(') and txt.endswith(')') and _balanced(txt[5:-1]):
+            txt = txt[5:-1]     # truth of bool(x) is truth of x
+        e = None
+        if ' and ' in txt or ' or ' in txt or txt.startswith('not ') or txt.startswith('(not '):
+            try:
+                e = ast.parse(txt, mode='eval').body
+            except SyntaxError:
+                e = None
+
+        def go(x, st):
+            if isinstance(x, ast.UnaryOp) and isinstance(x.op, ast.Not):
+                t, f = go(x.operand, st)
+                return f, t
+            if isinstance(x, ast.BoolOp):
+                t_all, f_all = [], []
+                cur = [st]
+                is_and = isinstance(x.op, ast.And)
+                for v in x.values:
+                    nxt = []
+                    for c in cur:
+                        t, f = go(v, c)
+                        if is_and:
+                            f_all.extend(f)
+                            nxt.extend(t)
+                        else:
+                            t_all.extend(t)
+                            nxt.extend(f)
+                    cur = nxt
+                return (cur, f_all) if is_and else (t_all, cur)
+            if isinstance(x, ast.Call) and isinstance(x.func, ast.Name) and x.func.id == 'bool' and len(x.args) == 1 \
+                    and not x.keywords:
+                return go(x.args[0], st)
+            if isinstance(x, ast.Constant):
+                return ([st], []) if x.value else ([], [st])
+            a = ast.unparse(x)
+            return [st.add_cond('+' + a)], [st.add_cond('-' + a)]
+        if e is None or not isinstance(e, (ast.BoolOp, ast.UnaryOp)):
+            return [s.add_cond('+' + txt)], [s.add_cond('-' + txt)]
+        return go(e, s)
 
     def loop_bind(self, st: ast.For, s: SymState):
         it = self.term(st.iter, s)
